@@ -24,12 +24,6 @@ func genC18(g *G) {
 	perKind := g.n(8, 16) // values per kind that get the (expensive) concurrent run
 	vals := c18Pool(g)
 
-	// emit: captight for everything (cheap); concurrent for the first perKind values of a kind that parse
-	g.in("c18-captight")
-	for _, v := range vals {
-		g.gen = "c18-captight-" + v.kind
-		g.emit("!captight", v.kind, v.hex, v.aux)
-	}
 	// concurrent runs: perKind accepted values per kind, SPREAD over the pool (its first entries are the ordinary ones)
 	accepted := map[string][]c18Val{}
 	var kinds []string
@@ -63,6 +57,12 @@ func genC18(g *G) {
 				}
 			}
 		}
+	}
+	// captight for everything (cheap) — after the concurrent runs, so that those meet first-use state untouched
+	g.in("c18-captight")
+	for _, v := range vals {
+		g.gen = "c18-captight-" + v.kind
+		g.emit("!captight", v.kind, v.hex, v.aux)
 	}
 }
 
